@@ -401,6 +401,13 @@ func (c *specCtx) index(b, i Val) Val {
 		switch u := b.Ty.Underlying().(type) {
 		case *types.Slice:
 			arr, _, _ := vc.sliceParts(b)
+			if eb, ok := u.Elem().Underlying().(*types.Basic); ok && eb.Info()&types.IsInteger != 0 && !strings.Contains(b.S, "_q") {
+				// type invariant of the slice value: elements are in the element type's range
+				if f := vc.eng.sorts.rangeFact(b.S, b.Ty, 0); f != "" && !vc.rangeAsserted[f] {
+					vc.rangeAsserted[f] = true
+					vc.typeFacts = append(vc.typeFacts, f)
+				}
+			}
 			return Val{S: fmt.Sprintf("(select %s %s)", arr, i.S), Ty: u.Elem(), Sort: vc.sortOf(u.Elem())}
 		case *types.Array:
 			if isByteArraySmall(u) {
